@@ -10,17 +10,26 @@
      ct, seen[t]        Signal: the flag could be true now / could have been true at some moment of t's pending wait
      dirty[t]           t's pending reset overlaps a set (so it need not leave the flag false)
      sets, okWaits      Monitor: set() calls begun / successful waits
+     ds, sdirty[t]      Signal: definitely set (a set() that no reset() overlapped has returned and no reset() has been
+                        called since) / t's pending set overlaps a reset
+     dm, lateTO         Monitor: a set() has returned and no wait has consumed it since / a timed wait gave up while dm
+     sigRet, succ       Semaphore: signals returned / successful waits returned
      ends               values returned by finished thread functions
+   The event "timeout" (logged by the scheduler) is the instant a timed wait gives up while its thread is still
+   blocked: no waiter may stay blocked - and give up - while the signal is definitely set, while a semaphore token is
+   definitely available to it, or (Monitor) while a set() stays unconsumed to the end.
    Step(ev, s) = set of allowed successor states (empty = the event violates C11).                            *)
 EXTENDS Integers, Sequences, FiniteSets, TLC
 CONSTANT NT
 Ts == 1..NT
 Init0 == [owner |-> 0, depth |-> 0, busy |-> [t \in Ts |-> FALSE], count |-> 0, ct |-> FALSE,
           seen |-> [t \in Ts |-> FALSE], dirty |-> [t \in Ts |-> FALSE], sets |-> 0, okWaits |-> 0, ends |-> {},
+          prim |-> "none", sdirty |-> [t \in Ts |-> FALSE], mdirty |-> [t \in Ts |-> FALSE], clk |-> 0,
+          callAt |-> [t \in Ts |-> 0], lockAt |-> [t \in Ts |-> 0], dmAt |-> 0, ds |-> FALSE, dm |-> FALSE, lateTO |-> FALSE, sigRet |-> 0, succ |-> 0, init |-> 0,
           f |-> [t \in Ts |-> "none"], t0 |-> [t \in Ts |-> 0], ms |-> [t \in Ts |-> 0], saved |-> [t \in Ts |-> 0]]
 
 Pending(s, fs) == { u \in Ts : s.f[u] \in fs }
-Begin(s, t, f, ev) == [s EXCEPT !.f[t] = f, !.t0[t] = ev.now, !.ms[t] = ev.ms]
+Begin(s, t, f, ev) == [s EXCEPT !.f[t] = f, !.t0[t] = ev.now, !.ms[t] = ev.ms, !.clk = s.clk + 1, !.callAt[t] = s.clk + 1]
 End(s, t) == [s EXCEPT !.f[t] = "none"]
 \* a timed wait may report failure only after its time-out has expired
 Expired(s, t, ev) == ev.now >= s.t0[t] + s.ms[t]
@@ -34,41 +43,61 @@ Call(ev, s) ==
                                        THEN { [b EXCEPT !.depth = s.depth - 1, !.owner = IF s.depth = 1 THEN 0 ELSE t] } ELSE {}
     [] f = "signal" -> { [b EXCEPT !.count = s.count + 1] }
     [] f \in {"wait", "twait", "trywait"} -> { [b EXCEPT !.seen[t] = s.ct] }
-    [] f = "set" -> { [b EXCEPT !.ct = TRUE, !.seen = [u \in Ts |-> s.seen[u] \/ s.f[u] \in {"wait", "twait"}],
+    [] f = "set" -> { [b EXCEPT !.sdirty[t] = (Pending(s, {"reset"}) # {}), !.ct = TRUE, !.seen = [u \in Ts |-> s.seen[u] \/ s.f[u] \in {"wait", "twait"}],
                                 !.dirty = [u \in Ts |-> s.dirty[u] \/ s.f[u] = "reset"]] }
-    [] f = "reset" -> { [b EXCEPT !.dirty[t] = (Pending(s, {"set"}) # {})] }
+    [] f = "reset" -> { [b EXCEPT !.dirty[t] = (Pending(s, {"set"}) # {}), !.ds = FALSE,
+                                  !.sdirty = [u \in Ts |-> s.sdirty[u] \/ s.f[u] = "set"]] }
     \* Monitor::wait releases the monitor (the caller must hold it) and re-acquires it before returning
     [] f \in {"mwait", "mtwait"} -> IF s.owner = t /\ s.depth >= 1
                                      THEN { [b EXCEPT !.owner = 0, !.depth = 0, !.saved[t] = s.depth,
                                                       !.busy = [u \in Ts |-> IF s.f[u] \in {"trylock", "mtrylock"} /\ u # t THEN TRUE ELSE s.busy[u]]] } ELSE {}
-    [] f = "mset" -> { [b EXCEPT !.sets = s.sets + 1] }
+    [] f = "mset" -> { [b EXCEPT !.sets = s.sets + 1, !.mdirty[t] = FALSE] }
     [] OTHER -> { b }
 
 Ret(ev, s) ==
   LET t == ev.t  f == ev.f  e == End(s, t) IN
   IF s.f[t] # f THEN {}
   ELSE CASE f \in {"lock", "mlock"} ->                       \* mutual exclusion, re-entrant for the owner
-              IF s.owner \in {0, t} THEN { [e EXCEPT !.owner = t, !.depth = s.depth + 1] } ELSE {}
+              IF s.owner \in {0, t} THEN { [e EXCEPT !.owner = t, !.depth = s.depth + 1, !.lockAt[t] = s.clk] } ELSE {}
          [] f \in {"trylock", "mtrylock"} ->                 \* succeeds only when free or own; may fail only if it was busy
               IF ev.r = 1 THEN (IF s.owner \in {0, t} THEN { [e EXCEPT !.owner = t, !.depth = s.depth + 1] } ELSE {})
               ELSE IF s.busy[t] THEN { e } ELSE {}
          [] f \in {"wait", "twait", "trywait"} /\ s.count # -1 /\ ev.prim = "sem" ->
-              IF ev.r = 1 THEN (IF s.count > 0 THEN { [e EXCEPT !.count = s.count - 1] } ELSE {})   \* conservation
+              IF ev.r = 1 THEN (IF s.count > 0 THEN { [e EXCEPT !.count = s.count - 1, !.succ = s.succ + 1] } ELSE {})   \* conservation
               ELSE IF f = "twait" THEN (IF Expired(s, t, ev) THEN { e } ELSE {})
               ELSE IF f = "trywait" THEN { e } ELSE {}                                             \* untimed wait never fails
          [] f \in {"wait", "twait"} /\ ev.prim = "signal" ->
               IF ev.r = 1 THEN (IF s.seen[t] THEN { e } ELSE {})          \* true only if set since the last reset
               ELSE IF f = "twait" /\ Expired(s, t, ev) THEN { e } ELSE {}
          [] f = "reset" -> { IF s.dirty[t] THEN e ELSE [e EXCEPT !.ct = FALSE] }
+         [] f = "set" -> { [e EXCEPT !.ds = s.ds \/ ~s.sdirty[t]] }      \* definitely set unless a reset overlapped this set
+         [] f = "signal" -> { [e EXCEPT !.sigRet = s.sigRet + 1] }
+         \* the flag is definitely pending unless a successful wait overlapped this set (it may have consumed it)
+         [] f = "mset" -> { IF s.mdirty[t] THEN e ELSE [e EXCEPT !.dm = TRUE, !.dmAt = s.callAt[t]] }
          [] f \in {"mwait", "mtwait"} ->
               IF s.owner # 0 THEN {}                                       \* returns holding the monitor again
-              ELSE IF ev.r = 1 THEN (IF s.okWaits + 1 <= s.sets THEN { [e EXCEPT !.owner = t, !.depth = s.saved[t], !.okWaits = s.okWaits + 1] } ELSE {})
+              ELSE IF ev.r = 1 THEN (IF s.okWaits + 1 <= s.sets THEN { [e EXCEPT !.owner = t, !.depth = s.saved[t], !.okWaits = s.okWaits + 1, !.dm = FALSE, !.lateTO = FALSE,
+                                                                                       !.mdirty = [u \in Ts |-> s.mdirty[u] \/ s.f[u] = "mset"]] } ELSE {})
               ELSE IF f = "mtwait" /\ Expired(s, t, ev) THEN { [e EXCEPT !.owner = t, !.depth = s.saved[t]] } ELSE {}
          [] f = "join" -> IF ev.r \in s.ends THEN { e } ELSE {}           \* the function's result, after it has finished
          [] OTHER -> { e }
 
+\* the instant a timed wait of thread t gives up although the thread could have been released
+Timeout(ev, s) ==
+  LET t == ev.t  f == s.f[t] IN
+  IF t \notin Ts THEN { s }
+  ELSE CASE f = "twait" /\ s.prim = "signal" -> IF s.ds THEN {} ELSE { s }          \* blocked while the signal remains set
+         [] f = "twait" /\ s.prim = "sem" ->                                        \* blocked while a token is certainly free for it
+              IF s.init + s.sigRet - s.succ - Cardinality(Pending(s, {"wait", "twait", "trywait"}) \ {t}) > 0 THEN {} ELSE { s }
+         \* Monitor: a set() that was issued after this waiter had taken the monitor is still unconsumed
+         [] f = "mtwait" -> { [s EXCEPT !.lateTO = s.lateTO \/ (s.dm /\ s.dmAt > s.lockAt[t])] }
+         [] OTHER -> { s }
+
 Step(ev, s) ==
-  CASE ev.op = "setup" -> { [Init0 EXCEPT !.count = ev.init, !.ct = (ev.init # 0)] }
+  CASE ev.op = "setup" -> { [Init0 EXCEPT !.count = ev.init, !.ct = (ev.init # 0), !.ds = (ev.init # 0 /\ ev.prim = "signal"), !.init = ev.init, !.prim = ev.prim] }
+    [] ev.op = "timeout" -> Timeout(ev, s)
+    \* the end: a Monitor set() that stayed unconsumed although a waiter gave up after it had returned released nobody
+    [] ev.op = "end" -> IF ev.verdict = "done" /\ s.dm /\ s.lateTO THEN {} ELSE { s }
     [] ev.op \in {"call", "ret"} /\ ev.f \in {"msetloop", "mdone", "start"} -> { s }     \* harness-level steps
     [] ev.op = "call" -> Call(ev, s)
     [] ev.op = "ret" -> Ret(ev, s)
